@@ -651,12 +651,15 @@ def gen_walk(n, seed, path):
     rng.shuffle(order)
     lines = []
     for k in order:
-        lines.append("%s %d" % (rng.choice("iic"), k))
+        lines.append("%s %d" % (rng.choice("iicp"), k))
         for _ in range(rng.randrange(0, 3)):
             lines.append("%s %d" % (rng.choice("urqiicx"), rng.randrange(n)))
     # make sure the boundary indices are hit directly from each other
     for k in (0, n - 1, n // 2, 0, n - 1):
         lines.append("i %d" % k)
+    # ... and through the replay entry point (no guards), which has its own validity test on the id
+    for k in (n - 1, 0, n // 2, n - 1):
+        lines.append("p %d" % k)
     open(path, "w").write("\n".join(lines) + "\n")
     return len(lines)
 
